@@ -16,6 +16,7 @@
   the clauses of the prose are read off it below.  Helper lemmas live in KavaVerif/Proofs/Cdp*.lean.
 -/
 import KavaVerif.Proofs.CdpExample
+import KavaVerif.Proofs.CdpGov
 import KavaVerif.Generated.CdpFacts
 import KavaVerif.Proofs.TieFnCdp
 set_option linter.unusedSimpArgs false
@@ -257,6 +258,77 @@ theorem C04_failed_noop (E : Env) (s : St) (op : Op) (h : (step E s op).isOk = f
 
 /-- non-vacuity: drawing past the ratio fails and changes nothing -/
 example : (step exEnv exAtRatio (.draw 100 3 0 1 0)).isOk = false := by decide +kernel
+
+/-! ### parameter changes by governance while CDPs exist
+
+    On a live chain the x/cdp parameters change between two blocks (governance end blocker, committee begin
+    blocker).  Every operation of the model takes the parameters in force as an argument, so a change is a
+    change of that argument between two steps; the harness reads the parameters from the x/params store before
+    every case.  The invariant only depends on the *shape* of the environment (`SameShape`: account universe,
+    debt conversion factor, per type its denom and conversion factor — the quantities the stored ratio-index
+    keys and the custody sums were computed with).  A change of a conversion factor or of a type's denom is
+    outside the shape: the code then recomputes "old" index keys with the new factor and the stored keys go
+    stale (no migration exists), which is why the harness never generates it. -/
+
+/-- a parameter change that leaves denoms and conversion factors alone — liquidation ratio, stability fee,
+    debt limits, debt floor, keeper reward, index count, market ids, auction thresholds / lots, the order of the
+    list, removing a type (`active := false`) and adding it again — keeps `Inv4` as it is: nothing is migrated
+    and nothing needs to be -/
+theorem C04_param_change_preserves_inv {E E' : Env} {g : Int} {s : St} (h : SameShape E E') :
+    Inv E g s ↔ Inv E' g s :=
+  ⟨inv_shape h, inv_shape h.symm⟩
+
+/-- the checkable form of the hypothesis: same accounts, same debt conversion factor, and the type lists agree
+    position by position on (denom, conversion factor); every other field, the `active` flags and the loop order
+    are free -/
+theorem C04_param_change_shape {E E' : Env} (ha : E'.accts = E.accts) (hd : E'.P.debtCf = E.P.debtCf)
+    (hm : E'.P.colls.map (fun (cp : CollParam) => (cp.denom, cp.cf)) = E.P.colls.map (fun (cp : CollParam) => (cp.denom, cp.cf))) :
+    SameShape E E' := sameShape_of_lists ha hd hm
+
+/-- `Inv4` holds after every history in which the parameters change (within the shape) before any step:
+    in particular after removing a collateral type while CDPs of it exist, any number of operations and
+    blocks, and adding it again -/
+theorem C04_invariant_all_histories_gov {E0 : Env} {g : Int} (s0 : St) (steps : List (Env × Op))
+    (h0 : Inv E0 g s0) (hsteps : ∀ E op, (E, op) ∈ steps → WF E ∧ SameShape E0 E ∧ OpOk E op) :
+    Inv E0 g (runG s0 steps) :=
+  runG_inv steps s0 h0 hsteps
+
+/-- while a collateral type is not listed, every user operation on it fails (so, by `C04_failed_noop`, changes
+    nothing): `ValidateCollateral` / `GetCDP` do not find the type -/
+theorem C04_removed_type_refuses {E : Env} {s : St} {ty : Nat} (h : isActive E ty = false) (now : Int) :
+    (∀ o c cd p pd, (create E now s o ty c cd p pd).isOk = false) ∧
+    (∀ o d c cd, (deposit E now s o d ty c cd).isOk = false) ∧
+    (∀ o d c cd, (withdraw E now s o d ty c cd).isOk = false) ∧
+    (∀ o p pd, (draw E now s o ty p pd).isOk = false) ∧
+    (∀ o p pd, (repay E now s o ty p pd).isOk = false) ∧
+    (∀ k o, (liquidate E now s k o ty).isOk = false) :=
+  inactive_refuses h now
+
+/-- … and the begin blocker only visits listed types -/
+theorem C04_removed_type_not_visited {E : Env} {facs : List Dec} {ty : Nat} {cp : CollParam} {f : Dec}
+    (hm : (ty, cp, f) ∈ blockTypes E facs) : isActive E ty = true := blockTypes_active hm
+
+
+/-- … and leaves every CDP of a type that is not listed exactly as it was: not synchronised, not seized, whatever
+    the prices (the CDPs of a removed type are frozen until the type is listed again) -/
+theorem C04_removed_type_untouched_by_begin_block {E : Env} {g : Int} {now : Int} {skip : Bool} {facs : List Dec}
+    {s s' : St} (hW : WF E) (hI : Inv E g s) (h : beginBlock E now skip facs s = .ok s')
+    (id : Nat) (c : Cdp) (hc : s.cdp id = some c) (hu : isActive E c.ty = false) : s'.cdp id = some c :=
+  beginBlock_keeps_unlisted hW hI h id c hc hu
+
+/-- non-vacuity: both are parameter changes within the shape; with the type removed the owner can neither
+    repay nor deposit and a begin block leaves the CDP alone even after a price crash; with the type back under
+    the ratio 2.0 the position created at exactly 150 % is seized by the next begin block, and in the original
+    world it is not -/
+example : SameShape exEnv exEnvRemoved ∧ SameShape exEnv exEnvRaised ∧
+    (repay exEnvRemoved 100 exAtRatio 3 0 10000000 0).isOk = false ∧
+    (deposit exEnvRemoved 100 exAtRatio 3 3 0 1 2).isOk = false ∧
+    (repay exEnv 100 exAtRatio 3 0 10000000 0).isOk = true ∧
+    ((apply exEnvRemoved { exAtRatio with price := fun _ => some ⟨1000000000000000⟩ } (.beginBlock 101 false [Dec.one])).cdp 1).isSome = true ∧
+    ((apply exEnvRaised exAtRatio (.beginBlock 101 false [Dec.one])).cdp 1).isNone = true ∧
+    ((apply exEnv exAtRatio (.beginBlock 101 false [Dec.one])).cdp 1).isSome = true := by
+  refine ⟨sameShape_of_lists rfl rfl rfl, sameShape_of_lists rfl rfl rfl, ?_⟩
+  decide +kernel
 
 /-! ## source tie (regenerated)
 
